@@ -105,6 +105,31 @@ CLAIMED = {
         technique="Lean 4 proof (mutual structural induction over the call tree, row-selection lemmas for "
                   "products / Khatri-Rao / stacking) + row-identity spec on real output + correspondence",
         ref="6 C06"),
+    "C07": dict(
+        text="Lean 4 state machine over histories (Model/World.lean: build / evaluate-common / "
+             "evaluate-group / set-config; prediction returns the transform state after the call) with 25 "
+             "theorems: C07_eval_pure (prediction never changes the transform state of any well-shaped "
+             "state, and every state produced by training is well-shaped; counterexample for ill-shaped "
+             "states), lifted to components / terms / groups and to `step` ((step w (eval i d)).1 = w in "
+             "every reachable world), C07_build_fresh, C07_config_frame, C07_history_independence (the "
+             "output of an operation after any history equals its output after only the build it refers "
+             "to and the last config change), C07_repeatable; ties by `decide` to tables the translator "
+             "extracts from the source: config read only at evaluation time, no self.* write on any "
+             "eval_new_data path, the only aliasing is the shared slices dict, LazyCall.eval writes only "
+             "its own stateful_transform under the `is None` guard, the registry holds classes never "
+             "instances, __call__ writes are guarded by params_set. Histories run against the real "
+             "library (all histories of length <= 3 over a reduced pool + 300 random of length <= 12), "
+             "every operation compared with the same operation in a fresh process (forked pristine "
+             "interpreter per relevant history) and with the model's step; training matrices, internal "
+             "design state, earlier results, caller's frames and namespace are snapshot-compared after "
+             "every operation.",
+        note="Trusted: Lean kernel; translator; the model is value-based: absence of writes to numpy arrays "
+             "/ DataFrames already handed out, Python object aliasing and the memo dictionaries of "
+             "Polynomial are carried by the snapshots of the correspondence only (no theorem can exhibit "
+             "them).",
+        technique="Lean 4 proof (frame lemmas + induction over histories) + source-shape ties + history "
+                  "correspondence against fresh processes",
+        ref="6 C07"),
     "C08": dict(
         text="Lean 4 theorems about the evaluation model (31): for every permutation sigma of the rows, "
              "TRAINING on the permuted frame gives the permuted training matrix and exactly the same "
